@@ -16,11 +16,14 @@ EXPR_POOL = [
     "|_| ()", "'|'", "|(a, b)| a", "unsafe { z }", "match v { 1 => 2, _ => 3 }", "f::<{ 1 + 2 }>",
     "|v| -> Vec<Vec<u8>> { vec![] }", "<T as Tr>::f", "|x| -> Result<u8, u8> { Ok(x) }", "g(|a| -> u8 { a?? })", "r#match",
     "|v| v >> 1", "m!{ a ~=> b }", "(|| -> u8 { 1 })()", "a[b >> c]", "!flag", "-x", "a + b * c",
+    # Rust's own operators that share characters with DSL operators
+    "|v| v << 2", "1 << 3", "a << b << c", "|v| v >> 2 << 1", "a || n > b", "a | b", "a & b && c", "a == b", "a != b", "a >= b",
+    "a < b", "a > b", "|x| x ^ 1", "a % b / c", "!a != !b", "a - -b", "|x| -> u8 { x << 1 }", "a << m!(b |> c)",
 ]
 DOT_POOL = ["unwrap()", "iter().map(|x| m!(x |> y))", "0", "field", "await", "a.b()", "0.1", "collect::<Vec<Vec<u8>>>()", "get(1..2)"]
 TYPE_POOL = ["Vec<u8>", "Vec<_>", "std::collections::HashMap<u8, Vec<u8>>", "(u8, u16)", "[u8; 2]", "&'a str", "Vec<Vec<u8>>",
              "Box<dyn Fn(u8) -> Vec<u8>>"]
-INIT_POOL = ["Ok::<u8, u8>(1)", "Some(2)", "a", "{ init }", "vec![1, 2].into_iter()", "-5i32", "x.y", "|| 3", "foo(1, 2)",
+INIT_POOL = ["1 << 3", "a >> b", "a | b", "Ok::<u8, u8>(1)", "Some(2)", "a", "{ init }", "vec![1, 2].into_iter()", "-5i32", "x.y", "|| 3", "foo(1, 2)",
              "&mut z", "a + b", "*p", "(1, 2)", "join!{ 1 |> f, 2 }", "async { 1 }", "{ let t = 1; t }", "!flag", "m::<Vec<Vec<u8>>>()",
              "|v| -> u8 { v }"]
 HANDLER_POOL = ["|a, b| a + b", "h", "|a| -> u8 { a }", "{ hh }", "|a, b| async move { Ok(a) }", "H::new"]
@@ -187,7 +190,7 @@ def run(ctx, progs, kinds=("a0t0s0",)):
     cases = []
     for i, p in enumerate(progs):
         cases.append(("rt%d" % i, kinds[i % len(kinds)], p.render(), "roundtrip"))
-    reals = k1.run_real(cases)
+    reals = k1.run_real(cases, with_oracle=True)
     bad = []
     for p, r in zip(progs, reals):
         exp = p.expected(lex)
